@@ -22,7 +22,7 @@ RULE = (
     "cables (one branch / two branches, c_m 1 / 2.5) against the exact solution of the semi-discrete cable, bwd_euler and crank_nicolson on every "
     "backend; distinct = (cable, backend) ladders with decreasing error"
 )
-REQUIRED_COVER = ["time_order_on_coupled_cable_cn", "time_order_on_coupled_cable_bwd", "branched_cable_cm_ne_1", "space_order_2", "time_order_1_bwd", "time_order_1_fwd", "time_order_2_cn", "unit_constants", "long_cable", "short_cable",
+REQUIRED_COVER = ["unequal_compartments_at_branch_point", "time_order_on_coupled_cable_cn", "time_order_on_coupled_cable_bwd", "branched_cable_cm_ne_1", "space_order_2", "time_order_1_bwd", "time_order_1_fwd", "time_order_2_cn", "unit_constants", "long_cable", "short_cable",
                   "backend:jaxley.stone", "backend:jaxley.thomas", "backend:jax.sparse"]
 ASSUMPTIONS = [
     "a finite refinement ladder is evidence of the limit, not the limit; observed orders must lie within +-0.3 (space) / +-0.1 (time) of the nominal order on the last two rungs "
@@ -78,6 +78,33 @@ def _cable_as_cell(n_per_branch, nbranches, r, L, ra, g, cm):
     return cell
 
 
+UNEVEN = (0.4, 0.6)  # fractions of the cable length carried by the two branches of the "uneven" cable
+
+
+def _cable_uneven(n_per_branch, r, L, ra, g, cm):
+    """The same uniform sealed cable as two branches in series with DIFFERENT compartment lengths (0.4 L and 0.6 L, equally many
+    compartments each): the compartments that meet at the branch point differ, so the branch point must weight its neighbours by
+    their own axial conductances."""
+    J = build.jx()
+    from jaxley.channels import Leak
+
+    comp = J.Compartment()
+    brs = []
+    for frac in UNEVEN:
+        b = J.Branch([comp] * n_per_branch)
+        b.set("length", frac * L / n_per_branch)
+        brs.append(b)
+    cell = J.Cell(brs, parents=[-1, 0])
+    cell.set("radius", r)
+    cell.set("axial_resistivity", ra)
+    cell.set("capacitance", cm)
+    cell.insert(Leak())
+    cell.set("Leak_gLeak", g)
+    cell.set("Leak_eLeak", E_LEAK)
+    cell.set("v", E_LEAK)
+    return cell
+
+
 def _green(x, x0, L, lam, r_um, ra, g):
     """Steady-state depolarisation (mV) at x for I_NA injected at x0 into a sealed cable (all lengths um)."""
     r_cm = r_um * 1e-4
@@ -97,11 +124,16 @@ def space_ladder(geom, backend, nbranches=1, cm=1.0):
     peak = None
     for k in range(5):
         n = 4 * 2**k
-        br = _cable(n, r, L, ra, g, cm) if nbranches == 1 else _cable_as_cell(n // nbranches, nbranches, r, L, ra, g, cm)
+        if nbranches == "uneven":
+            br = _cable_uneven(n // 2, r, L, ra, g, cm)
+            h1, h2 = UNEVEN[0] * L / (n // 2), UNEVEN[1] * L / (n // 2)
+            xs = np.concatenate([(np.arange(n // 2) + 0.5) * h1, UNEVEN[0] * L + (np.arange(n // 2) + 0.5) * h2])
+        else:
+            br = _cable(n, r, L, ra, g, cm) if nbranches == 1 else _cable_as_cell(n // nbranches, nbranches, r, L, ra, g, cm)
+            h = L / n
+            xs = (np.arange(n) + 0.5) * h
         vs, _ = build.eager_step(br, "bwd_euler", backend, 1e9, {"i": np.asarray([I_NA])}, {"i": np.asarray([0])}, nsteps=1)
         sim = np.asarray(vs[1]) - E_LEAK
-        h = L / n
-        xs = (np.arange(n) + 0.5) * h
         ana = np.asarray([_green(x, xs[0], L, lam, r, ra, g) for x in xs])
         errs.append(float(np.max(np.abs(sim - ana))))
         peak = float(np.max(ana))
@@ -179,7 +211,8 @@ def work(item):
 
     if item["part"] == "space":
         geom, backend = tuple(item["geom"]), item["backend"]
-        nb, cm = int(item.get("nbranches", 1)), float(item.get("cm", 1.0))
+        nb, cm = item.get("nbranches", 1), float(item.get("cm", 1.0))
+        nb = nb if nb == "uneven" else int(nb)
         try:
             errs, peak = space_ladder(geom, backend, nb, cm)
         except Exception as e:
@@ -188,6 +221,9 @@ def work(item):
         out["evals"] += 5
         od = orders(errs)
         out["cover"] += [f"backend:{backend}", "long_cable" if geom[1] > 1 else "short_cable"]
+        if nb == "uneven":
+            out["cover"].append("unequal_compartments_at_branch_point")
+            nb = 2
         if nb > 1 and cm != 1.0:
             out["cover"].append("branched_cable_cm_ne_1")
         # every rung, not only the asymptotic end: the coarse rungs are where "one compartment per branch" and similar
@@ -273,7 +309,7 @@ def explore(ctx):
         if ctx.tier == "quick" and not (g[0] == 2.0 and g[2] == 100.0):
             continue
         for b in BACKENDS:
-            for nb, cm in ((2, 2.5), (4, 0.6)):
+            for nb, cm in ((2, 2.5), (4, 0.6), ("uneven", 1.7)):
                 if ctx.tier == "quick" and b == "jaxley.thomas" and nb == 4:
                     continue
                 items.append({"part": "space", "geom": list(g), "backend": b, "nbranches": nb, "cm": cm})
